@@ -459,6 +459,48 @@ Proof.
     + intros sl' t Ht Hl. apply release_lease_other; auto.
 Qed.
 
+(* HA sync entry points: Reserve*InPool never disturbs anybody, Release*InPool (Repaired) only the named session *)
+Lemma reserve_in_any r p x s r' ok :
+  reg_ok r -> In p (pools r) -> reserve_in r p x s = (r', ok) -> step_ok anyone r r'.
+Proof.
+  intros Hok Hin E. destruct (contains p x) eqn:Ec.
+  - destruct (reserve_in_ok _ _ _ _ _ _ _ _ Hok Hin eq_refl eq_refl Ec E) as [A _]. exact A.
+  - unfold reserve_in in E. unfold contains in Ec. destruct (slot_of (p_geom p) x); [discriminate|].
+    inversion E; subst. apply step_ok_refl.
+Qed.
+Lemma reserve_named_ok v f key x s r r' ok :
+  reg_ok r -> In (r', ok) (reserve_named v f key x s r) -> step_ok anyone r r'.
+Proof.
+  intros Hok. unfold reserve_named.
+  destruct (match key with Some k => find (fun p => p_key p =? k) (fam_pools f r) | None => None end) as [p|] eqn:Ek.
+  - intros [E|[]]. destruct key as [k|]; [|discriminate]. apply find_in in Ek. destruct Ek as [Ek _].
+    apply fam_pools_in in Ek. destruct Ek as [Hin _]. eapply reserve_in_any; eauto.
+  - destruct (filter (fun p => contains p x) (fam_pools f r)) as [|c cs] eqn:Ef.
+    + intros [E|[]]. inversion E; subst. apply step_ok_refl.
+    + rewrite <- Ef. intros Hc. apply in_map_iff in Hc. destruct Hc as (p & E & Hp).
+      apply filter_In in Hp. destruct Hp as [Hp _]. apply fam_pools_in in Hp. destruct Hp as [Hin _].
+      eapply reserve_in_any; eauto.
+Qed.
+Lemma release_named_ok f key x s r r' :
+  In r' (release_named Repaired f key x s r) -> step_ok (other_than s) r r'.
+Proof.
+  unfold release_named.
+  assert (Hupd : forall p sl, In p (pools r) -> step_ok (other_than s) r (upd_pool r (pool_release Repaired p sl s))).
+  { intros p sl Hin. apply upd_pool_ok with (p := p); auto.
+    - unfold pool_release. destruct (lease_of p sl); [destruct (owner_ok Repaired n s)|]; reflexivity.
+    - apply release_wf.
+    - intros sl' t Ht Hl. apply release_lease_other; auto. }
+  destruct (match key with Some k => find (fun p => p_key p =? k) (fam_pools f r) | None => None end) as [p|] eqn:Ek.
+  - destruct key as [k|]; [|discriminate]. apply find_in in Ek. destruct Ek as [Ek _].
+    apply fam_pools_in in Ek. destruct Ek as [Hin _].
+    destruct (raw_slot (p_geom p) x) as [sl|]; intros [<-|[]]; [apply Hupd; exact Hin|apply step_ok_refl].
+  - destruct (filter (fun p => contains p x) (fam_pools f r)) as [|c cs] eqn:Ef.
+    + intros [<-|[]]. apply step_ok_refl.
+    + rewrite <- Ef. intros Hc. apply in_map_iff in Hc. destruct Hc as (p & <- & Hp).
+      apply filter_In in Hp. destruct Hp as [Hp _]. apply fam_pools_in in Hp. destruct Hp as [Hin _].
+      destruct (slot_of (p_geom p) x) as [sl|]; [apply Hupd; exact Hin|apply step_ok_refl].
+Qed.
+
 (* the DHCPv4 provider never touches another session's registry lease (Repaired) *)
 Lemma prov_release_ok pr r mac s pr' r' :
   prov_release Repaired pr r mac s = (pr', r') -> step_ok (other_than s) r r'.
@@ -810,10 +852,10 @@ Lemma oitem_oaddr (a : option item) : (forall i, a = Some i -> snd i = 0) -> oit
 Proof. destruct a as [[x l]|]; simpl; auto. intros H. specialize (H _ eq_refl). simpl in H. subst. reflexivity. Qed.
 
 (* ---------------------------------------------------------------- PI *)
-Lemma pi_upd_inv st s X :
+Lemma pi_upd_inv st s X b :
   inv st -> In s (st_sess st) -> s_ppp s = true ->
   (X = s_a4 s \/ X = s_told s \/ X = None) ->
-  inv (mkState (st_reg st) (put_sess (pi_upd s X) (st_sess st)) (st_prov st)).
+  inv (mkState (st_reg st) (put_sess (pi_upd s X b) (st_sess st)) (st_prov st)).
 Proof.
   intros Hinv Hin Hppp HX. destruct (inv_sess _ _ Hinv Hin) as [Hs Ht].
   apply inv_update with (s := s); [exact Hinv|exact Hin|reflexivity|apply step_ok_refl| |].
@@ -1241,15 +1283,27 @@ Proof.
   unfold inv; cbn [st_reg st_sess]. repeat split; auto; try apply A. rewrite D. exact Hnd.
 Qed.
 
+(* a registry change on behalf of an id that no local session has *)
+Lemma inv_reg_step st r' pr' sid :
+  inv st -> find_sess sid st = None -> step_ok (other_than sid) (st_reg st) r' ->
+  inv (mkState r' (st_sess st) pr').
+Proof.
+  intros (Hr & Hnd & Hs & Ht) Hf Hstep. destruct (rinv_step _ _ _ Hr Hstep) as [Hr' Hp].
+  unfold inv; cbn [st_reg st_sess]. split; [exact Hr'|split; [exact Hnd|split; [|exact Ht]]].
+  apply Forall_forall. intros t Hti. eapply sess_ok_pres; [exact Hp| |eapply Forall_forall in Hs; eauto].
+  unfold other_than. intros E. unfold find_sess in Hf. pose proof (find_none _ _ Hf t Hti) as H.
+  cbv beta in H. rewrite E, N.eqb_refl in H. discriminate.
+Qed.
+
 (* ---------------------------------------------------------------- every step, every history *)
 Lemma step_inv st o st' ot : inv st -> In (st', ot) (step Repaired st o) -> inv st'.
 Proof.
   intros Hinv. unfold step, skip.
-  destruct o as [sid vrf s4 s6 spd o4 o6 od|sid a|sid|isreq bind rq sid vrf s4 o4|isreq sid vrf s6 spd o6 od|sid|sid| |sid|sid|sid|sid vrf s4 o4 s6 spd o6 od|sid];
+  destruct o as [sid vrf s4 s6 spd o4 o6 od|sid a|sid|isreq bind rq sid vrf s4 o4|isreq sid vrf s6 spd o6 od|sid|sid| |sid|sid|sid|sid vrf s4 o4 s6 spd o6 od|sid|hf key hx sid|hf key hx sid];
     try (apply step_restart_inv; exact Hinv);
     destruct (find_sess sid st) as [s|] eqn:Ef;
     try (intros [E|[]]; inversion E; subst; exact Hinv);
-    destruct (find_sess_in _ _ _ Ef) as [Hin Hid].
+    try destruct (find_sess_in _ _ _ Ef) as [Hin Hid].
   - destruct (s_ppp s && s_live s); [apply step_pa_inv; auto|].
     intros [E|[]]; inversion E; subst; exact Hinv.
   - destruct (s_ppp s) eqn:Ep; cbn [andb]; [|intros [E|[]]; inversion E; subst; exact Hinv].
@@ -1284,6 +1338,11 @@ Proof.
       split; [intros X; discriminate|]. repeat split; apply oo_none.
     + unfold told_ok, ic_ctx; cbn [s_ppp]. intros X; discriminate.
   - destruct (negb (s_ppp s) && s_live s); [apply step_rel_inv; auto|intros [E|[]]; inversion E; subst; exact Hinv].
+  - intros H. apply in_map_iff in H. destruct H as ([r' ok] & E & Hc). inversion E; subst.
+    destruct Hinv as [[Hok Hk] Hrest]. eapply inv_reg_step; [split; [split|]; eauto|exact Ef|].
+    eapply step_ok_weaken; [|eapply reserve_named_ok; eauto]. intros; exact I.
+  - intros H. apply in_map_iff in H. destruct H as (r' & E & Hc). inversion E; subst.
+    eapply inv_reg_step; [exact Hinv|exact Ef|]. eapply release_named_ok; exact Hc.
 Qed.
 
 Lemma reach_inv st0 st : inv st0 -> reach Repaired st0 st -> inv st.
@@ -1565,7 +1624,7 @@ Proof.
   assert (Hfind : forall sid s, find_sess sid st = Some s -> rec_ok s).
   { intros sid s Hf. unfold find_sess in Hf. apply find_in in Hf. destruct Hf as [Hf _].
     eapply Forall_forall in Hss; eauto. }
-  destruct o as [sid vrf s4 s6 spd o4 o6 od|sid a|sid|isreq bind rq sid vrf s4 o4|isreq sid vrf s6 spd o6 od|sid|sid| |sid|sid|sid|sid vrf s4 o4 s6 spd o6 od|sid].
+  destruct o as [sid vrf s4 s6 spd o4 o6 od|sid a|sid|isreq bind rq sid vrf s4 o4|isreq sid vrf s6 spd o6 od|sid|sid| |sid|sid|sid|sid vrf s4 o4 s6 spd o6 od|sid|hf key hx sid|hf key hx sid].
   8:{ unfold step_restart.
       destruct (fold_left (restore_one Repaired (store (st_prov st))) (st_sess st)
                   (mkReg (map reset_pool (pools (st_reg st))) [], [])) as [r2 ss] eqn:E.
@@ -1573,7 +1632,7 @@ Proof.
       - eapply restore_fold_rec; [exact Hst|constructor|exact Hss|exact E].
       - exact Hst. }
   all: destruct (find_sess sid st) as [s|] eqn:Ef; try (intros [E|[]]; inversion E; subst; exact Hinv);
-       pose proof (Hfind _ _ Ef) as Hs.
+       try pose proof (Hfind _ _ Ef) as Hs.
   - destruct (s_ppp s && s_live s); [|intros [E|[]]; inversion E; subst; exact Hinv].
     unfold step_pa, bindl. intros H.
     apply in_flat_map in H. destruct H as ([[[r1 a4] p4] ok4] & _ & H).
@@ -1645,6 +1704,8 @@ Proof.
     apply in_flat_map in H. destruct H as (r3 & _ & H). apply in_map_iff in H. destruct H as (r4 & E & _).
     inversion E; subst. pose proof (prov_release_store _ _ _ _ _ _ _ Epr) as Es.
     apply rec_put; auto. apply store_unckpt_ok. cbn [store with_p6]. rewrite Es; exact Hst.
+  - intros H. apply in_map_iff in H. destruct H as (c & E & _). inversion E; subst. split; [exact Hss|exact Hst].
+  - intros H. apply in_map_iff in H. destruct H as (c & E & _). inversion E; subst. split; [exact Hss|exact Hst].
 Qed.
 
 Lemma reach_rec st0 st : rec_inv st0 -> reach Repaired st0 st -> rec_inv st.
